@@ -51,6 +51,7 @@ class Interp:
         self._tmp = None
         self.B = ['C16']
         self.allow_d16 = False
+        self.own_sindex = False
 
     # ------------------------------------------------------------------ helpers
     def labels(self):
@@ -119,6 +120,19 @@ class Interp:
                 b = sorted(int(v) for v in fr.sindex.intersects(tuple(box)))
                 if a != b:
                     raise Failure(B + ['derived', 'sindex.intersects'], f'box={box} {a} != fresh {b} {off}')
+                if self.own_sindex:
+                    # the array's own cached index (every array of this history builds one as soon as it exists, so a
+                    # derived array that inherits its parent's index shows here)
+                    a = sorted(int(v) for v in lib(B + ['own-sindex'], lambda: arr.sindex.intersects(tuple(box))))
+                    if a != b:
+                        raise Failure(B + ['derived', 'own-sindex.intersects'], f'box={box} {a} != fresh {b} {off}')
+                    x0, x1 = sorted((box[0], box[2]))
+                    y0, y1 = sorted((box[1], box[3]))
+                    if x0 < x1 and y0 < y1:
+                        ca = model.to_canonical(lib(B + ['cx'], lambda: arr.cx[x0:x1, y0:y1]))
+                        cb = model.to_canonical(fr.cx[x0:x1, y0:y1])
+                        if ca != cb:
+                            raise Failure(B + ['derived', 'cx-with-own-sindex'], f'box={box} {ca} != fresh {cb} {off}')
         if len(mdl):
             a = lib(B + ['hilbert_distance'], arr.hilbert_distance, list(self.tb), self.p)
             b = fr.hilbert_distance(list(self.tb), self.p)
@@ -150,6 +164,9 @@ class Interp:
             self.B = ['C16', self.kind]
             self.boxes, self.tb, self.p = s['boxes'], s['total_bounds'], s['p']
             self.allow_d16 = bool(s.get('allow_d16'))
+            self.own_sindex = bool(s.get('own_sindex'))
+            if self.own_sindex:
+                self._labels.add('own-sindex-history')
             if self.kind == 'point':
                 self.shape = model.build_array('polygon', [SHAPE_FOR_POINTS], 'float64')[0]
             else:
@@ -335,7 +352,7 @@ def _header(draw):
     boxes = [[draw(st.integers(-5, 3)), draw(st.integers(-5, 3)), draw(st.integers(0, 7)), draw(st.integers(0, 7))] for _ in range(2)]
     return {'op': 'init', 'kind': kind, 'subtype': subtype, 'boxes': boxes,
             'total_bounds': draw(st.sampled_from([[-4.0, -4.0, 6.0, 6.0], [-8.0, -8.0, 8.0, 8.0], [0.0, 0.0, 1.0, 3.0]])),
-            'p': draw(st.integers(1, 16))}
+            'p': draw(st.integers(1, 16)), 'own_sindex': draw(st.booleans())}
 
 
 @st.composite
